@@ -144,6 +144,8 @@ type S3Interface interface {
 
 // Open returns a database. 'when' marks the creation time of the new version.
 func Open(ctx context.Context, S3 S3Interface, cfg Config, opts OpenOptions, when time.Time) (*DB, error) {
+	S3 = verifS3(S3, cfg.Storage)
+	when = verifWhen(when)
 	if !opts.ReadOnly && len(opts.OnlyVersions) > 0 {
 		return nil, fmt.Errorf("opts.OnlyVersions requires opts.ReadOnly")
 	}
@@ -330,6 +332,7 @@ func mergeRoots(
 	rand.Shuffle(len(roots), func(i, j int) {
 		roots[i], roots[j] = roots[j], roots[i]
 	})
+	roots = verifRootOrder(roots)
 
 	mergedRoots := make(map[string][]byte, len(roots))
 	var tree *crdt.Tree
@@ -629,6 +632,9 @@ func getDependents(mergedRoots rootGraph) dependentRoots {
 }
 
 func (s *DB) moveMergedRoots(ctx context.Context, newRoot string, mergedRoots map[string][]byte) {
+	if verifRetire(ctx, s, newRoot, mergedRoots) {
+		return
+	}
 	for key, mergedRoot := range mergedRoots {
 		if newRoot == key {
 			continue
